@@ -73,7 +73,7 @@ Init_All == << <<"ins", 1, 1, 1>>, <<"ins", 2, 1, 1>>,
                <<"reg", "persistent", 1, << <<"bc", 1>>, <<"eev", 1, 1>>, <<"mut", 1>>, <<"rem", 1>> >>, 0>>,
                <<"reg", "persistent", 2, << <<"anyev", 1>>, <<"ins", 1>>, <<"erem", 1, 1>>, <<"desp", 2>> >>, 0>> >>
 Init_Comp == << <<"ins", 1, 1, 1>>, <<"ins", 2, 1, 1>>,
-                <<"reg", "persistent", 1, << <<"mut", 1>>, <<"rem", 1>>, <<"eins", 2, 1>> >>, 0>>,
+                <<"reg", "persistent", 1, << <<"mut", 1>>, <<"rem", 1>>, <<"eins", 2, 1>>, <<"res", 1>> >>, 0>>,
                 <<"reg", "cleanup", 2, << <<"ins", 1>>, <<"erem", 1, 1>>, <<"desp", 2>> >>, 0>> >>
 Init_ErBurst == << <<"ins", 1, 1, 1>>, <<"ins", 2, 1, 1>>, <<"ins", 1, 2, 1>>,
                    <<"reg", "persistent", 1, << <<"anyev", 1>>, <<"mut", 1>>, <<"ins", 1>>, <<"mut", 2>> >>, 0>>,
